@@ -92,6 +92,9 @@ pub struct Case {
     /// Logger::use_utc() (a process-wide setting: only in cases that run in a child process)
     #[serde(default)]
     pub utc: bool,
+    /// (child-process cases) LoggerHandle::flush() after every record
+    #[serde(default)]
+    pub flush_between: bool,
 }
 
 #[derive(Clone, Copy, Debug, Serialize, Deserialize, PartialEq, Eq)]
@@ -202,6 +205,9 @@ pub fn child_main(file: &std::path::Path) -> ! {
     let base = h().time().unwrap();
     for r in &case.recs {
         log_rec(&*log, r, "flv");
+        if case.flush_between {
+            handle.flush();
+        }
     }
     let mut snapshot = None;
     if case.std_out == Some(StdKind::Buffer) {
@@ -265,6 +271,9 @@ fn run_std(case: &Case, kind: StdKind) -> Outcome {
     }
     if case.utc {
         out.class("use_utc");
+    }
+    if case.flush_between {
+        out.class("flush-after-every-record");
     }
     out.nontrivial = recursive || matches!(kind, StdKind::FileDupErr | StdKind::FileDupOut);
     out
@@ -543,16 +552,18 @@ impl Property for P {
             prop::bool::weighted(0.4),
             prop::option::weighted(0.08, prop_oneof![Just(StdKind::Stdout), Just(StdKind::Stderr), Just(StdKind::Buffer), Just(StdKind::FileDupErr), Just(StdKind::FileDupOut)]),
             prop::bool::weighted(0.4),
+            prop::bool::weighted(0.4),
         )
-            .prop_flat_map(|(fmt, crlf, mode, t0, tick, multi, std_out, utc)| {
+            .prop_flat_map(|(fmt, crlf, mode, t0, tick, multi, std_out, utc, flush_between)| {
                 let utc = utc && std_out.is_some();
+                let flush_between = flush_between && std_out.is_some();
                 let dup = matches!(std_out, Some(StdKind::FileDupErr | StdKind::FileDupOut));
                 let multi = multi && std_out.is_none();
                 let crlf = crlf && std_out.is_none();
                 let allow_inner = !multi && !dup;
-                (Just((fmt, crlf, mode, t0, tick, multi, std_out, utc)), prop::collection::vec(rc_strat(allow_inner), 1..8))
+                (Just((fmt, crlf, mode, t0, tick, multi, std_out, utc, flush_between)), prop::collection::vec(rc_strat(allow_inner), 1..8))
             })
-            .prop_map(|((fmt, crlf, mode, t0, tick, multi, std_out, utc), recs)| Case {
+            .prop_map(|((fmt, crlf, mode, t0, tick, multi, std_out, utc, flush_between), recs)| Case {
                 tz: crate::vtime::tz_name(),
                 fmt,
                 crlf,
@@ -563,6 +574,7 @@ impl Property for P {
                 recs,
                 std_out,
                 utc,
+                flush_between,
             })
             .boxed()
     }
